@@ -28,6 +28,7 @@ pub const SUITES: &[Suite] = &[
     Suite { name: "C01", gen: gen_single, exec },
     Suite { name: "C01chain", gen: gen_chain, exec },
     Suite { name: "C01reg", gen: gen_reg, exec },
+    Suite { name: "C01impl", gen: gen_impl, exec },
 ];
 
 const PAGE: usize = 4096;
@@ -117,8 +118,44 @@ impl<T: ByteValued + 'static> DynArr for VolatileArrayRef<'static, T, ()> {
     }
 }
 
+// ------------------------------------------------------------------ third-party implementors
+/// A `VolatileMemory` implementor the crate did not write (root kinds 5, 6, 7): its `get_slice`
+/// stays inside [base, base+len) but does not return `count` bytes - it clamps the count (5),
+/// returns the rest of the memory (6) or one byte less than asked (7).  The PROVIDED trait
+/// methods must still not hand out a typed accessor reaching past the slice they were given.
+/// The address range is never dereferenced.  Transcribed as `impl_gs` in coq/Suite/C01impl.v.
+struct Odd {
+    base: usize,
+    len: usize,
+    k: u64,
+}
+impl VolatileMemory for Odd {
+    type B = ();
+    fn len(&self) -> usize {
+        self.len
+    }
+    fn get_slice(&self, offset: usize, count: usize) -> Result<VolatileSlice<'_, ()>, VErr> {
+        if offset > self.len {
+            return Err(VErr::OutOfBounds { addr: offset });
+        }
+        let n = match self.k {
+            5 => std::cmp::min(count, self.len - offset),
+            6 => self.len - offset,
+            _ => {
+                if (offset as u128) + (count as u128) > self.len as u128 {
+                    return Err(VErr::OutOfBounds { addr: offset });
+                }
+                count.saturating_sub(1)
+            }
+        };
+        // SAFETY: never dereferenced (fake parent); the range lies inside [base, base+len)
+        Ok(unsafe { VolatileSlice::new((self.base + offset) as *mut u8, n) })
+    }
+}
+
 #[derive(Clone, Copy)]
 enum Acc {
+    Odd(&'static Odd),
     Slice(&'static VS),
     Ref(&'static dyn DynRef),
     Arr(&'static dyn DynArr),
@@ -350,6 +387,11 @@ fn request(ar: &mut Arena, cur: Acc, code: u64, ty: u64, a: usize, b: usize) -> 
             _ => vm_request(ar, s, code, ty, a, b),
         },
         Acc::Region(r) => vm_request(ar, r, code, ty, a, b),
+        // the implementor's own get_slice is not a library method
+        Acc::Odd(m) => match code {
+            0 => Out::Err(7),
+            _ => vm_request(ar, m, code, ty, a, b),
+        },
         Acc::Ref(r) => match code {
             12 => Out::New(ar.slice(r.to_slice())),
             _ => Out::Err(7),
@@ -402,6 +444,7 @@ fn exec(case: &[Tok]) -> Vec<Tok> {
     let mut _real: Option<RealMap> = None;
     let mut gregions: Vec<*mut GuestRegionMmap<()>> = Vec::new();
     let mut gmem: Option<*mut GuestMemoryMmap<()>> = None;
+    let mut odd: Option<*mut Odd> = None;
     let mut root = Root { kind: rk, hosts: vec![], gbases: vec![], touch: rk == 0 };
     let mut cur: Acc = match rk {
         0 | 1 => {
@@ -439,6 +482,13 @@ fn exec(case: &[Tok]) -> Vec<Tok> {
                 }
             }
         }
+        5 | 6 | 7 => {
+            assert!((base as u128) + (len as u128) < 1u128 << 64 && len <= isize::MAX as usize);
+            root.hosts.push((base, len));
+            let m = Box::into_raw(Box::new(Odd { base, len, k: rk }));
+            odd = Some(m);
+            Acc::Odd(unsafe { &*m })
+        }
         _ => panic!("bad root kind"),
     };
     let mut ridx = 0usize;
@@ -475,6 +525,9 @@ fn exec(case: &[Tok]) -> Vec<Tok> {
     }
     for g in gregions {
         drop(unsafe { Box::from_raw(g) });
+    }
+    if let Some(m) = odd {
+        drop(unsafe { Box::from_raw(m) });
     }
     let _ = root.kind;
     // summary token for the evidence histogram: class of the first answer (3f: no request)
@@ -722,6 +775,61 @@ fn gen_single(rng: &mut Rng, tier: Tier, emit: &mut dyn FnMut(Vec<Tok>)) {
                     }
                 }
             }
+        }
+    }
+}
+
+/// third-party implementors: every provided trait method x element type x boundary offsets /
+/// counts on small and large fake parents at several base alignments, for the three get_slice
+/// flavours; a third of the cases continue with one or two requests on the accessor that came back
+fn gen_impl(rng: &mut Rng, tier: Tier, emit: &mut dyn FnMut(Vec<Tok>)) {
+    let quick = tier == Tier::Quick;
+    let mut parents: Vec<(u64, u64)> = Vec::new();
+    for len in 0..=(if quick { 9u64 } else { 18 }) {
+        for shift in if quick { vec![0u64, 1, 2, 4, 8] } else { (0..16).collect::<Vec<u64>>() } {
+            parents.push((0x7000_0000_0000 + 4096 - shift, len));
+        }
+    }
+    for &(b, l) in &[(4096u64, 4096u64), (4099, 65536), (1 << 40, 1 << 33), (8, i64::MAX as u64 - 7), (4096, (1 << 62) + 5)] {
+        parents.push((b, l));
+    }
+    for k in 5..=7u64 {
+        for &(base, len) in &parents {
+            let mut offs: Vec<u64> = (0..=std::cmp::min(len, 18) + 2).collect();
+            if len > 18 {
+                offs.extend(bset(len, base));
+            }
+            offs.extend([u64::MAX, u64::MAX - 7, 1 << 63]);
+            for &a in &offs {
+                emit(case_slice(k, base, len, vec![op(1, 0, 0, 0)]));
+                for ty in 0..9u64 {
+                    for code in [2u64, 4, 5] {
+                        let mut ops = vec![op(code, ty, a, 0)];
+                        if code == 2 && rng.chance(1, 3) {
+                            ops.push(op(12, 0, 0, 0));
+                            ops.push(op(8, 0, rng.below(3), rng.below(4)));
+                        }
+                        emit(case_slice(k, base, len, ops));
+                    }
+                    if ty < 4 {
+                        emit(case_slice(k, base, len, vec![op(6, ty, a, 0)]));
+                    }
+                    let sz = TY_SIZE[ty as usize] as u64;
+                    for &nn in &nset(len.saturating_sub(std::cmp::min(a, len)), sz) {
+                        if !quick || rng.chance(1, 6) {
+                            let mut ops = vec![op(3, ty, a, nn)];
+                            if rng.chance(1, 3) {
+                                ops.push(op(13, 0, rng.below(nn.saturating_add(2).min(1 << 20)), 0));
+                            } else if rng.chance(1, 3) {
+                                ops.push(op(14, 0, 0, 0));
+                            }
+                            emit(case_slice(k, base, len, ops));
+                        }
+                    }
+                }
+            }
+            // the own get_slice: answered "not applicable" by the harness, not judged
+            emit(case_slice(k, base, len, vec![op(0, 0, 0, len)]));
         }
     }
 }
